@@ -47,6 +47,21 @@ static int run(const std::string &ob, const Args &a)
         }
         return bad;
     }
+    if (ob.find("Complex.ops") != std::string::npos || ob.find("Complex.ctor") != std::string::npos) {
+        // small Gaussian rationals against every small exact operand: normal form of the result and round trips through the inverse operation
+        std::vector<RCP<const Number>> zs, os;
+        for (long a2 = -2; a2 <= 2; a2++) for (long b2 = -2; b2 <= 2; b2++) if (b2 != 0) zs.push_back(Complex::from_two_nums(*Rational::from_two_ints(a2, 2), *Rational::from_two_ints(b2, 2)));
+        for (long k = -2; k <= 2; k++) { os.push_back(integer(k)); os.push_back(Rational::from_two_ints(k, 2)); os.push_back(Complex::from_two_nums(*integer(k), *integer(1))); }
+        auto nf = [](const RCP<const Number> &r) { return !is_a<Complex>(*r) || !(down_cast<const Complex &>(*r).imaginary_ == 0); };
+        for (auto &z : zs) for (auto &o : os) {
+            RCP<const Number> s1 = z->add(*o), d1 = z->sub(*o), m1 = z->mul(*o), m2 = o->mul(*z);
+            if (!nf(s1) || !nf(d1) || !nf(m1) || !nf(m2)) { std::cout << "z = " << z->__str__() << ", other = " << o->__str__() << ": " << s1->__str__() << " ; " << d1->__str__() << " ; " << m1->__str__() << " ; " << m2->__str__() << "\nREPRODUCED: a Complex with zero imaginary part was returned (not normalised to a real number)\n"; return 1; }
+            if (!eq(*s1->sub(*o), *z) || !eq(*d1->add(*o), *z) || !eq(*m1, *m2)) { std::cout << "z = " << z->__str__() << ", other = " << o->__str__() << "\nREPRODUCED: (z + o) - o, (z - o) + o or z*o == o*z fails\n"; return 1; }
+            if (!o->is_zero()) { RCP<const Number> q1 = z->div(*o); if (!nf(q1) || !eq(*q1->mul(*o), *z)) { std::cout << "z = " << z->__str__() << ", other = " << o->__str__() << ": z / other = " << q1->__str__() << "\nREPRODUCED: (z / o) * o != z\n"; return 1; } }
+        }
+        std::cout << "not reproduced on the small Gaussian rationals\n";
+        return 0;
+    }
     if (ob.find("dispatch") != std::string::npos) {
         // every pair of small Integers / Rationals through the virtual add/sub/mul/div, against GMP rational arithmetic done here
         std::vector<RCP<const Number>> pool;
